@@ -324,21 +324,53 @@ Fixpoint fields (n : nat) (s : string) : nat :=
       end
   end.
 
+(* float(t2) == 0 for the material field t2, read as a decimal number without
+   exponent: [+-]digits[.digits] or [+-].digits.  Some true = zero, Some false =
+   non-zero, None = float() raises ValueError (exponents, inf, nan, underscores
+   are outside the model) *)
+Definition strip_sign (s : string) : string :=
+  match s with
+  | String c r => if Ascii.eqb c "-" || Ascii.eqb c "+" then r else s
+  | EmptyString => s
+  end.
+
+Definition is_empty (s : string) : bool := match s with EmptyString => true | _ => false end.
+
+Definition mat_class (t : string) : option bool :=
+  let '(ip, r) := span_while is_digit (strip_sign t) in
+  match r with
+  | EmptyString => if is_empty ip then None else Some (all_zero ip)
+  | String c fp =>
+      if Ascii.eqb c "." then
+        let '(fd, r2) := span_while is_digit fp in
+        if is_empty r2 && negb (is_empty ip && is_empty fd) then Some (all_zero ip && all_zero fd) else None
+      else None
+  end.
+
+(* t2 of  name, t2, _ = txt.split(None, 2) *)
+Definition second_field (txt : string) : string :=
+  fst (span_while nonblank (skip_blanks (snd (span_while nonblank (skip_blanks txt))))).
+
+(* float(t2) is evaluated on the second field of the WHOLE card, before the
+   void / non-void regex runs on the card without its options *)
 Definition split_card (txt : string) : res (string * string) :=
   if Nat.ltb (fields 3 txt) 3 then Err EValue else
-  let '(body, opts) := find_options txt in
-  match span_digits (skip_blanks body) 0%N 0 with
-  | (_, O, _) => Err EIndex
-  | (_, _, s1) =>
-      if negb (blank_head s1) then Err EIndex else
-      let '(mat, s2) := span_while nonblank (skip_blanks s1) in
-      match mat with
-      | EmptyString => Err EIndex
-      | _ =>
-          if negb (all_digits mat) then Err EValue            (* float(t2): digits only here *)
-          else if all_zero mat then Ok (s2, opts)
-          else if negb (blank_head s2) then Err EIndex
-          else let '(rho, s3) := span_while density_char (skip_blanks s2) in
-               match rho with EmptyString => Err EIndex | _ => Ok (s3, opts) end
+  match mat_class (second_field txt) with
+  | None => Err EValue
+  | Some void =>
+      let '(body, opts) := find_options txt in
+      match span_digits (skip_blanks body) 0%N 0 with
+      | (_, O, _) => Err EIndex
+      | (_, _, s1) =>
+          if negb (blank_head s1) then Err EIndex else
+          let '(mat, s2) := span_while nonblank (skip_blanks s1) in
+          match mat with
+          | EmptyString => Err EIndex
+          | _ =>
+              if void then Ok (s2, opts)
+              else if negb (blank_head s2) then Err EIndex
+              else let '(rho, s3) := span_while density_char (skip_blanks s2) in
+                   match rho with EmptyString => Err EIndex | _ => Ok (s3, opts) end
+          end
       end
   end.
